@@ -5,99 +5,16 @@
 From Coq Require Import Reals ZArith List Bool Lra Lia String.
 From PyLib Require Import PyVal PyBuiltins Ideal.
 From Spec Require Import Finder.
-From Gen Require Import M_base M_Angle M_Epoch M_Mercury M_Venus M_Mars M_Jupiter M_Saturn M_Uranus M_Neptune.
+From Gen Require Import M_base M_Angle M_Epoch.
 From Proofs.C13 Require Import C13_defs C13_main.
-From Proofs.C13 Require C13_f_Jupiter_conjunction.
-From Proofs.C13 Require C13_f_Jupiter_opposition.
-From Proofs.C13 Require C13_f_Jupiter_station_longitude_1.
-From Proofs.C13 Require C13_f_Jupiter_station_longitude_2.
-From Proofs.C13 Require C13_f_Mars_conjunction.
-From Proofs.C13 Require C13_f_Mars_opposition.
-From Proofs.C13 Require C13_f_Mars_station_longitude_1.
-From Proofs.C13 Require C13_f_Mars_station_longitude_2.
-From Proofs.C13 Require C13_f_Mercury_eastern_elongation.
-From Proofs.C13 Require C13_f_Mercury_inferior_conjunction.
-From Proofs.C13 Require C13_f_Mercury_station_longitude_1.
-From Proofs.C13 Require C13_f_Mercury_station_longitude_2.
-From Proofs.C13 Require C13_f_Mercury_superior_conjunction.
-From Proofs.C13 Require C13_f_Mercury_western_elongation.
-From Proofs.C13 Require C13_f_Neptune_conjunction.
-From Proofs.C13 Require C13_f_Neptune_opposition.
-From Proofs.C13 Require C13_f_Saturn_conjunction.
-From Proofs.C13 Require C13_f_Saturn_opposition.
-From Proofs.C13 Require C13_f_Saturn_station_longitude_1.
-From Proofs.C13 Require C13_f_Saturn_station_longitude_2.
-From Proofs.C13 Require C13_f_Uranus_conjunction.
-From Proofs.C13 Require C13_f_Uranus_opposition.
-From Proofs.C13 Require C13_f_Venus_eastern_elongation.
-From Proofs.C13 Require C13_f_Venus_inferior_conjunction.
-From Proofs.C13 Require C13_f_Venus_station_longitude_1.
-From Proofs.C13 Require C13_f_Venus_station_longitude_2.
-From Proofs.C13 Require C13_f_Venus_superior_conjunction.
-From Proofs.C13 Require C13_f_Venus_western_elongation.
 Import ListNotations.
 Open Scope R_scope.
 
 (* 1. Each finder of the regenerated model: for a query whose Epoch.year is y in -2000..4000 it returns
    Epoch(A + k B + cr k) with k = round((365.2425 y + 1721060 - A)/B) and cr the periodic-term sum written
    out in C13_f_*.v (every coefficient), |cr k - c0| <= C, 2C < B <= 800; ValueError outside -2000..4000;
-   TypeError for None/bool/int/float/str.  Elongation finders also return Angle(el k), 0 <= el k < 360. *)
-Theorem C13_Jupiter_conjunction : finder_props (Jupiter_conjunction Rops) C13_f_Jupiter_conjunction.A C13_f_Jupiter_conjunction.B C13_f_Jupiter_conjunction.c0 C13_f_Jupiter_conjunction.C C13_f_Jupiter_conjunction.cr.
-Proof. exact C13_f_Jupiter_conjunction.ok. Qed.
-Theorem C13_Jupiter_opposition : finder_props (Jupiter_opposition Rops) C13_f_Jupiter_opposition.A C13_f_Jupiter_opposition.B C13_f_Jupiter_opposition.c0 C13_f_Jupiter_opposition.C C13_f_Jupiter_opposition.cr.
-Proof. exact C13_f_Jupiter_opposition.ok. Qed.
-Theorem C13_Jupiter_station_longitude_1 : finder_props (Jupiter_station_longitude_1 Rops) C13_f_Jupiter_station_longitude_1.A C13_f_Jupiter_station_longitude_1.B C13_f_Jupiter_station_longitude_1.c0 C13_f_Jupiter_station_longitude_1.C C13_f_Jupiter_station_longitude_1.cr.
-Proof. exact C13_f_Jupiter_station_longitude_1.ok. Qed.
-Theorem C13_Jupiter_station_longitude_2 : finder_props (Jupiter_station_longitude_2 Rops) C13_f_Jupiter_station_longitude_2.A C13_f_Jupiter_station_longitude_2.B C13_f_Jupiter_station_longitude_2.c0 C13_f_Jupiter_station_longitude_2.C C13_f_Jupiter_station_longitude_2.cr.
-Proof. exact C13_f_Jupiter_station_longitude_2.ok. Qed.
-Theorem C13_Mars_conjunction : finder_props (Mars_conjunction Rops) C13_f_Mars_conjunction.A C13_f_Mars_conjunction.B C13_f_Mars_conjunction.c0 C13_f_Mars_conjunction.C C13_f_Mars_conjunction.cr.
-Proof. exact C13_f_Mars_conjunction.ok. Qed.
-Theorem C13_Mars_opposition : finder_props (Mars_opposition Rops) C13_f_Mars_opposition.A C13_f_Mars_opposition.B C13_f_Mars_opposition.c0 C13_f_Mars_opposition.C C13_f_Mars_opposition.cr.
-Proof. exact C13_f_Mars_opposition.ok. Qed.
-Theorem C13_Mars_station_longitude_1 : finder_props (Mars_station_longitude_1 Rops) C13_f_Mars_station_longitude_1.A C13_f_Mars_station_longitude_1.B C13_f_Mars_station_longitude_1.c0 C13_f_Mars_station_longitude_1.C C13_f_Mars_station_longitude_1.cr.
-Proof. exact C13_f_Mars_station_longitude_1.ok. Qed.
-Theorem C13_Mars_station_longitude_2 : finder_props (Mars_station_longitude_2 Rops) C13_f_Mars_station_longitude_2.A C13_f_Mars_station_longitude_2.B C13_f_Mars_station_longitude_2.c0 C13_f_Mars_station_longitude_2.C C13_f_Mars_station_longitude_2.cr.
-Proof. exact C13_f_Mars_station_longitude_2.ok. Qed.
-Theorem C13_Mercury_eastern_elongation : finder_props2 (Mercury_eastern_elongation Rops) C13_f_Mercury_eastern_elongation.A C13_f_Mercury_eastern_elongation.B C13_f_Mercury_eastern_elongation.c0 C13_f_Mercury_eastern_elongation.C C13_f_Mercury_eastern_elongation.cr C13_f_Mercury_eastern_elongation.el.
-Proof. exact C13_f_Mercury_eastern_elongation.ok. Qed.
-Theorem C13_Mercury_inferior_conjunction : finder_props (Mercury_inferior_conjunction Rops) C13_f_Mercury_inferior_conjunction.A C13_f_Mercury_inferior_conjunction.B C13_f_Mercury_inferior_conjunction.c0 C13_f_Mercury_inferior_conjunction.C C13_f_Mercury_inferior_conjunction.cr.
-Proof. exact C13_f_Mercury_inferior_conjunction.ok. Qed.
-Theorem C13_Mercury_station_longitude_1 : finder_props (Mercury_station_longitude_1 Rops) C13_f_Mercury_station_longitude_1.A C13_f_Mercury_station_longitude_1.B C13_f_Mercury_station_longitude_1.c0 C13_f_Mercury_station_longitude_1.C C13_f_Mercury_station_longitude_1.cr.
-Proof. exact C13_f_Mercury_station_longitude_1.ok. Qed.
-Theorem C13_Mercury_station_longitude_2 : finder_props (Mercury_station_longitude_2 Rops) C13_f_Mercury_station_longitude_2.A C13_f_Mercury_station_longitude_2.B C13_f_Mercury_station_longitude_2.c0 C13_f_Mercury_station_longitude_2.C C13_f_Mercury_station_longitude_2.cr.
-Proof. exact C13_f_Mercury_station_longitude_2.ok. Qed.
-Theorem C13_Mercury_superior_conjunction : finder_props (Mercury_superior_conjunction Rops) C13_f_Mercury_superior_conjunction.A C13_f_Mercury_superior_conjunction.B C13_f_Mercury_superior_conjunction.c0 C13_f_Mercury_superior_conjunction.C C13_f_Mercury_superior_conjunction.cr.
-Proof. exact C13_f_Mercury_superior_conjunction.ok. Qed.
-Theorem C13_Mercury_western_elongation : finder_props2 (Mercury_western_elongation Rops) C13_f_Mercury_western_elongation.A C13_f_Mercury_western_elongation.B C13_f_Mercury_western_elongation.c0 C13_f_Mercury_western_elongation.C C13_f_Mercury_western_elongation.cr C13_f_Mercury_western_elongation.el.
-Proof. exact C13_f_Mercury_western_elongation.ok. Qed.
-Theorem C13_Neptune_conjunction : finder_props (Neptune_conjunction Rops) C13_f_Neptune_conjunction.A C13_f_Neptune_conjunction.B C13_f_Neptune_conjunction.c0 C13_f_Neptune_conjunction.C C13_f_Neptune_conjunction.cr.
-Proof. exact C13_f_Neptune_conjunction.ok. Qed.
-Theorem C13_Neptune_opposition : finder_props (Neptune_opposition Rops) C13_f_Neptune_opposition.A C13_f_Neptune_opposition.B C13_f_Neptune_opposition.c0 C13_f_Neptune_opposition.C C13_f_Neptune_opposition.cr.
-Proof. exact C13_f_Neptune_opposition.ok. Qed.
-Theorem C13_Saturn_conjunction : finder_props (Saturn_conjunction Rops) C13_f_Saturn_conjunction.A C13_f_Saturn_conjunction.B C13_f_Saturn_conjunction.c0 C13_f_Saturn_conjunction.C C13_f_Saturn_conjunction.cr.
-Proof. exact C13_f_Saturn_conjunction.ok. Qed.
-Theorem C13_Saturn_opposition : finder_props (Saturn_opposition Rops) C13_f_Saturn_opposition.A C13_f_Saturn_opposition.B C13_f_Saturn_opposition.c0 C13_f_Saturn_opposition.C C13_f_Saturn_opposition.cr.
-Proof. exact C13_f_Saturn_opposition.ok. Qed.
-Theorem C13_Saturn_station_longitude_1 : finder_props (Saturn_station_longitude_1 Rops) C13_f_Saturn_station_longitude_1.A C13_f_Saturn_station_longitude_1.B C13_f_Saturn_station_longitude_1.c0 C13_f_Saturn_station_longitude_1.C C13_f_Saturn_station_longitude_1.cr.
-Proof. exact C13_f_Saturn_station_longitude_1.ok. Qed.
-Theorem C13_Saturn_station_longitude_2 : finder_props (Saturn_station_longitude_2 Rops) C13_f_Saturn_station_longitude_2.A C13_f_Saturn_station_longitude_2.B C13_f_Saturn_station_longitude_2.c0 C13_f_Saturn_station_longitude_2.C C13_f_Saturn_station_longitude_2.cr.
-Proof. exact C13_f_Saturn_station_longitude_2.ok. Qed.
-Theorem C13_Uranus_conjunction : finder_props (Uranus_conjunction Rops) C13_f_Uranus_conjunction.A C13_f_Uranus_conjunction.B C13_f_Uranus_conjunction.c0 C13_f_Uranus_conjunction.C C13_f_Uranus_conjunction.cr.
-Proof. exact C13_f_Uranus_conjunction.ok. Qed.
-Theorem C13_Uranus_opposition : finder_props (Uranus_opposition Rops) C13_f_Uranus_opposition.A C13_f_Uranus_opposition.B C13_f_Uranus_opposition.c0 C13_f_Uranus_opposition.C C13_f_Uranus_opposition.cr.
-Proof. exact C13_f_Uranus_opposition.ok. Qed.
-Theorem C13_Venus_eastern_elongation : finder_props2 (Venus_eastern_elongation Rops) C13_f_Venus_eastern_elongation.A C13_f_Venus_eastern_elongation.B C13_f_Venus_eastern_elongation.c0 C13_f_Venus_eastern_elongation.C C13_f_Venus_eastern_elongation.cr C13_f_Venus_eastern_elongation.el.
-Proof. exact C13_f_Venus_eastern_elongation.ok. Qed.
-Theorem C13_Venus_inferior_conjunction : finder_props (Venus_inferior_conjunction Rops) C13_f_Venus_inferior_conjunction.A C13_f_Venus_inferior_conjunction.B C13_f_Venus_inferior_conjunction.c0 C13_f_Venus_inferior_conjunction.C C13_f_Venus_inferior_conjunction.cr.
-Proof. exact C13_f_Venus_inferior_conjunction.ok. Qed.
-Theorem C13_Venus_station_longitude_1 : finder_props (Venus_station_longitude_1 Rops) C13_f_Venus_station_longitude_1.A C13_f_Venus_station_longitude_1.B C13_f_Venus_station_longitude_1.c0 C13_f_Venus_station_longitude_1.C C13_f_Venus_station_longitude_1.cr.
-Proof. exact C13_f_Venus_station_longitude_1.ok. Qed.
-Theorem C13_Venus_station_longitude_2 : finder_props (Venus_station_longitude_2 Rops) C13_f_Venus_station_longitude_2.A C13_f_Venus_station_longitude_2.B C13_f_Venus_station_longitude_2.c0 C13_f_Venus_station_longitude_2.C C13_f_Venus_station_longitude_2.cr.
-Proof. exact C13_f_Venus_station_longitude_2.ok. Qed.
-Theorem C13_Venus_superior_conjunction : finder_props (Venus_superior_conjunction Rops) C13_f_Venus_superior_conjunction.A C13_f_Venus_superior_conjunction.B C13_f_Venus_superior_conjunction.c0 C13_f_Venus_superior_conjunction.C C13_f_Venus_superior_conjunction.cr.
-Proof. exact C13_f_Venus_superior_conjunction.ok. Qed.
-Theorem C13_Venus_western_elongation : finder_props2 (Venus_western_elongation Rops) C13_f_Venus_western_elongation.A C13_f_Venus_western_elongation.B C13_f_Venus_western_elongation.c0 C13_f_Venus_western_elongation.C C13_f_Venus_western_elongation.cr C13_f_Venus_western_elongation.el.
-Proof. exact C13_f_Venus_western_elongation.ok. Qed.
+   TypeError for None/bool/int/float/str.  Elongation finders also return Angle(el k), 0 <= el k < 360.
+   These 28 statements (C13_<Planet>_<finder>) are in C13_s_<Planet>.v. *)
 
 (* 2. Consequences for every such finder (x = the instant handed to Epoch()): *)
 (* as the query year advances the result never moves backwards; a different event is >= B - 2C later *)
@@ -128,34 +45,6 @@ Proof. exact timing1. Qed.
 Theorem C13_timing2 : forall f A B c0 C cr el, finder_props2 f A B c0 C cr el -> timing A B c0 C cr.
 Proof. exact timing2. Qed.
 
-Redirect "C13_Jupiter_conjunction.assumptions" Print Assumptions C13_Jupiter_conjunction.
-Redirect "C13_Jupiter_opposition.assumptions" Print Assumptions C13_Jupiter_opposition.
-Redirect "C13_Jupiter_station_longitude_1.assumptions" Print Assumptions C13_Jupiter_station_longitude_1.
-Redirect "C13_Jupiter_station_longitude_2.assumptions" Print Assumptions C13_Jupiter_station_longitude_2.
-Redirect "C13_Mars_conjunction.assumptions" Print Assumptions C13_Mars_conjunction.
-Redirect "C13_Mars_opposition.assumptions" Print Assumptions C13_Mars_opposition.
-Redirect "C13_Mars_station_longitude_1.assumptions" Print Assumptions C13_Mars_station_longitude_1.
-Redirect "C13_Mars_station_longitude_2.assumptions" Print Assumptions C13_Mars_station_longitude_2.
-Redirect "C13_Mercury_eastern_elongation.assumptions" Print Assumptions C13_Mercury_eastern_elongation.
-Redirect "C13_Mercury_inferior_conjunction.assumptions" Print Assumptions C13_Mercury_inferior_conjunction.
-Redirect "C13_Mercury_station_longitude_1.assumptions" Print Assumptions C13_Mercury_station_longitude_1.
-Redirect "C13_Mercury_station_longitude_2.assumptions" Print Assumptions C13_Mercury_station_longitude_2.
-Redirect "C13_Mercury_superior_conjunction.assumptions" Print Assumptions C13_Mercury_superior_conjunction.
-Redirect "C13_Mercury_western_elongation.assumptions" Print Assumptions C13_Mercury_western_elongation.
-Redirect "C13_Neptune_conjunction.assumptions" Print Assumptions C13_Neptune_conjunction.
-Redirect "C13_Neptune_opposition.assumptions" Print Assumptions C13_Neptune_opposition.
-Redirect "C13_Saturn_conjunction.assumptions" Print Assumptions C13_Saturn_conjunction.
-Redirect "C13_Saturn_opposition.assumptions" Print Assumptions C13_Saturn_opposition.
-Redirect "C13_Saturn_station_longitude_1.assumptions" Print Assumptions C13_Saturn_station_longitude_1.
-Redirect "C13_Saturn_station_longitude_2.assumptions" Print Assumptions C13_Saturn_station_longitude_2.
-Redirect "C13_Uranus_conjunction.assumptions" Print Assumptions C13_Uranus_conjunction.
-Redirect "C13_Uranus_opposition.assumptions" Print Assumptions C13_Uranus_opposition.
-Redirect "C13_Venus_eastern_elongation.assumptions" Print Assumptions C13_Venus_eastern_elongation.
-Redirect "C13_Venus_inferior_conjunction.assumptions" Print Assumptions C13_Venus_inferior_conjunction.
-Redirect "C13_Venus_station_longitude_1.assumptions" Print Assumptions C13_Venus_station_longitude_1.
-Redirect "C13_Venus_station_longitude_2.assumptions" Print Assumptions C13_Venus_station_longitude_2.
-Redirect "C13_Venus_superior_conjunction.assumptions" Print Assumptions C13_Venus_superior_conjunction.
-Redirect "C13_Venus_western_elongation.assumptions" Print Assumptions C13_Venus_western_elongation.
 Redirect "C13_order.assumptions" Print Assumptions C13_order.
 Redirect "C13_spacing.assumptions" Print Assumptions C13_spacing.
 Redirect "C13_index.assumptions" Print Assumptions C13_index.
